@@ -2,6 +2,7 @@ package main
 
 import (
 	"fmt"
+	"go/constant"
 	"go/token"
 	"go/types"
 
@@ -32,6 +33,9 @@ type pathExec struct {
 	maxStep int
 	visits  map[*ssa.BasicBlock]int
 	onInstr func(pe *pathExec, in ssa.Instruction)
+	// optional: boolean results of an inlined callee are evaluated when it returns (while its parameters are still
+	// bound to this call's arguments) and replaced by the constant - a helper entered twice shares its SSA values
+	evalBoolResult func(v ssa.Value) (bool, bool)
 }
 
 func cellKey(addr ssa.Value) (string, bool) {
@@ -220,12 +224,23 @@ func (pe *pathExec) exec(fn *ssa.Function, start *ssa.BasicBlock, depth int) (ss
 						end, why := pe.exec(callee, nil, depth+1)
 						switch r := end.(type) {
 						case *ssa.Return:
+							freeze := func(x ssa.Value) ssa.Value {
+								x = pe.resolve(x)
+								if pe.evalBoolResult != nil {
+									if bt, ok := x.Type().Underlying().(*types.Basic); ok && bt.Kind() == types.Bool {
+										if b, known := pe.evalBoolResult(x); known {
+											return ssa.NewConst(constant.MakeBool(b), types.Typ[types.Bool])
+										}
+									}
+								}
+								return x
+							}
 							if len(r.Results) == 1 {
-								pe.vals[t] = pe.resolve(r.Results[0])
+								pe.vals[t] = freeze(r.Results[0])
 							} else {
 								var rs []ssa.Value
 								for _, x := range r.Results {
-									rs = append(rs, pe.resolve(x))
+									rs = append(rs, freeze(x))
 								}
 								pe.tup[t] = rs
 							}
